@@ -3,7 +3,7 @@
    that C09 talks about; the check is C09's decidable clause on the observation. *)
 From Coq Require Import List Bool Arith String.
 Import ListNotations.
-From Lime Require Import Base.Res Hs.Types Hs.Server Hs.Monitor Hs.Pipelined Corr.HsServer Corr.HsChecks Corr.PipeChecks.
+From Lime Require Import Base.Res Hs.Types Hs.Server Hs.Monitor Hs.Pipelined Corr.HsServer Corr.HsChecks Corr.PipeChecks Corr.Interop.
 Open Scope string_scope.
 Open Scope list_scope.
 
@@ -26,7 +26,9 @@ Inductive case :=
    what it says it supports, what is in force initially, and a sequence of SetEncryption (true) / SetCompression
    (false) calls, each with its argument, whether it succeeded and what was in force afterwards *)
 | KOptions (k : tkind) (sup_enc sup_comp : list string) (init_enc init_comp : string)
-           (calls : list (bool * string * bool * string * string)).
+           (calls : list (bool * string * bool * string * string))
+(* a real ClientChannel.EstablishSession against a real Server (Corr/Interop.v): both ends of one handshake *)
+| KInterop (c : icase).
 
 (* Hs/Types.v's view of the same calls *)
 Fixpoint options_agree (k : tkind) (enc comp : string) (calls : list (bool * string * bool * string * string)) : bool :=
@@ -57,6 +59,7 @@ Definition check (c : case) : bool :=
   | KScript s => c09_check s
   | KPipelined s _ clear => pipe_check s clear
   | KOptions k se sc ie ic calls => mem ie se && mem ic sc && options_ok se sc ie ic calls
+  | KInterop i => interop_check i
   end.
 Definition agrees (c : case) : bool :=
   match c with
@@ -65,6 +68,7 @@ Definition agrees (c : case) : bool :=
   | KOptions k se sc ie ic calls =>
       strs_eqb se (supported_enc k) && strs_eqb sc (supported_comp k) && String.eqb ie (initial_enc k) &&
       String.eqb ic "none" && options_agree k ie ic calls
+  | KInterop i => interop_agrees i
   end.
 Definition mismatches (cs : list case) : list nat := bad_indices agrees cs.
 Definition violations (cs : list case) : list nat := bad_indices check cs.
